@@ -77,7 +77,7 @@ def run(ctx, chk):
                 want = 'ThreadPanic' if pan else 'ThreadTerminate'
                 chk.ob('C15.N1', 'drop:notifies:%s' % want, kind == want, p.where[2],
                        'panicking=%s: sends %s (must send %s)' % (pan, kind, want))
-        chk.floor('C15.N1', 'paths of Drop for Context', n, 4)
+        chk.floor('C15.N1', 'paths of Drop for Context', n, 2)
 
     # ------------------------------------------------------------ N2/N3 manager
     def keep_opaque(x):
